@@ -223,6 +223,14 @@ def run_check(check: str, tier: str, seed: int, jobs: int, only_case: dict | Non
         anchor_lines[short] = lines
 
     extra = mod.summarize(results, counters, sets) if hasattr(mod, "summarize") else {}
+    if finis and isinstance(finis[0], dict) and "contract_evals" in finis[0]:
+        by_class: dict = {}
+        for f_ in finis:
+            for k_, v_ in (f_.get("by_class") or {}).items():
+                by_class[k_] = by_class.get(k_, 0) + v_
+        extra = dict(extra)
+        extra["contract_monitor"] = {"available": all(f_.get("contracts_available") for f_ in finis),
+                                     "postcondition_evaluations": sum(f_.get("contract_evals", 0) for f_ in finis), "by_stream_class": by_class}
     distinct = len(sigs)
     coverage = {
         "evaluations": len(results),
